@@ -194,6 +194,8 @@ c09_call(G) :- catch(G, error(existence_error(procedure, _), _), fail).
 c12_mark(I) :- bb_get(c12_log, L), bb_put(c12_log, [I|L]), assertz(c12_l(I)).
 c12_reset :- bb_put(c12_log, []), retractall(c12_l(_)).
 c12_marks(Ms, As) :- bb_get(c12_log, L), reverse(L, Ms), findall(M, c12_l(M), As).
+% commit to the first solution with a real cut in a clause body
+c12_first(G) :- call(G), !.
 c12_run(T, G, R) :- catch((findall(T, G, L), R = sols(L)), B, R = ball(B)).
 
 % ---------------------------------------------------------------------------
